@@ -65,21 +65,21 @@ Fixpoint table_lookup (t : list (str * str * bool)) (re s : str) : bool :=
   | (re', s', b) :: r => if str_eqb re' re && str_eqb s' s then b else table_lookup r re s
   end.
 
-Definition mk_repo (t : bool * N * str * N * list (str * str)) : repo :=
+Definition mk_repo (t : bool * N * str * list (str * str) * list (str * str)) : repo :=
   let '(tomb, id, name, rc, meta) := t in
-  {| r_tomb := tomb; r_id := id; r_name := name; r_rc := rc; r_meta := meta |}.
+  {| r_tomb := tomb; r_id := id; r_name := name; r_rawconfig := rc; r_meta := meta |}.
 
 (** One case = the rewrite that was run on the implementation, its input tree and the tree the
     implementation returned. *)
 Inductive c05case : Type :=
 | CSimplify (q out : Q)                      (* query.Simplify *)
 | CExpand (q out : Q)                        (* query.Map(q, query.ExpandFileContent) *)
-| CShard (repos : list (bool * N * str * N * list (str * str))) (langs : list str)
+| CShard (repos : list (bool * N * str * list (str * str) * list (str * str))) (langs : list str)
          (retab : list (str * str * bool)) (q out : Q)      (* indexData.simplify *)
 | CEvalConst (q out : Q)                     (* query.evalConstants *)
 | CFlatten (q out : Q) (changed : bool)      (* query.flatten (one round) *)
 | CStrip (q out : Q)                         (* query.stripCaseScopes *)
-| CRef (repos : list (bool * N * str * N * list (str * str))) (langs : list str)
+| CRef (repos : list (bool * N * str * list (str * str) * list (str * str))) (langs : list str)
        (retab : list (str * str * bool)) (rxtab : list (str * bool * str * bool))
        (q : Q) (docs : list (nat * str * str * str * list str * str)) (sel : list bool).
                                              (* the Go reference evaluator on a corpus *)
